@@ -6,12 +6,62 @@ REAL = SCRIPTED + ["src/endpoints/buffer.c", "src/byte-buffer.c"]
 RU = SCRIPTED + ["src/byte-buffer.c"]
 
 INFO = {
-    "explanation": "",
-    "bounds": {},
-    "outside_bounds": [],
-    "stubs": [],
-    "assumptions": [],
+    "explanation":
+        "src/rfc1055.c (with the real Source/Sink dispatch of src/endpoints/core.c) is executed symbolically "
+        "by CBMC; all 256 octet values are symbolic everywhere. "
+        "roundtrip/concat: rfc1055_encode of 1 or 2 arbitrary payloads into one sink of exactly the summed "
+        "worst-case size (2n+1, 2n+2 with start-of-frame; the RFC1055_WORST_CASE macro is asserted to be that), "
+        "image compared octet by octet with an RFC 1055 reference encoder (so END occurs only at delimiter "
+        "positions), then rfc1055_decode once per frame into a sink of exactly n octets: returns 1, delivers the "
+        "payload, consumes exactly that frame. One pair of instances runs through the library's ByteBuffer "
+        "endpoints (source_from_buffer/sink_to_buffer + byte-buffer.c), the others through scripted drivers. "
+        "step: ONE rfc1055_decode call from an arbitrary reachable decoder state on an arbitrary octet string "
+        "followed by an arbitrary source error, sink failing after an arbitrary count, compared with a reference "
+        "SLIP automaton (return value, octets consumed, octets delivered, next state where the property determines "
+        "it); the decoder has no memory besides ctx->state and each loop iteration consumes 1-2 octets, so the "
+        "K-octet strings from every state cover every transition followed by every transition and the result "
+        "extends to streams of any length (this last step is argued, not machine-checked). "
+        "resync: arbitrary reachable start state (stands for any earlier history) + arbitrary noise + [classic: "
+        "END] + well-formed frames, decode called until the stream is exhausted; classic: deliveries after the "
+        "delimiter are exactly the frames; start-of-frame: deliveries after the end of the first non-empty frame "
+        "are exactly the later frames. errors: source/sink failure with an arbitrary error value at every position "
+        "of encode and decode is returned unchanged.",
+    "bounds": {
+        "quick": {"roundtrip_buf (real ByteBuffer endpoints)": "payload 0..4, both modes",
+                  "roundtrip (scripted)": "payload 0..4", "concat": "2 frames x payload 0..2 (octet sink: "
+                  "escape pairs via sink_put_chunk/sink_adapt)",
+                  "step": "any reachable state, 0..5 arbitrary octets, any error values, sink capacity 0..5",
+                  "resync": "noise 0..2 octets, 2 frames x payload 0..2, any reachable start state",
+                  "errors": "payload 0..3, failure at every position, any negative error value"},
+        "thorough": {"roundtrip_buf": "payload 0..8", "roundtrip": "payload 0..9",
+                     "concat": "2 frames x payload 0..4", "step": "0..9 arbitrary octets",
+                     "resync": "noise 0..5, 3 frames x payload 0..2; and noise 0..9, 2 frames x payload 0..1",
+                     "errors": "payload 0..8"},
+    },
+    "outside_bounds": [
+        "payloads/streams longer than the stated lengths, in particular the 1 KiB random payloads of the "
+        "quantifier (covered only by the step + loop-structure induction argument)",
+        "drivers that return 0 or a short count (retry semantics of the endpoint layer: C17); chunk sinks that "
+        "accept part of an escape pair",
+        "resuming a decode after a source error that fell between ESC and its second octet (the ESC is lost: "
+        "the property is silent about resumption; observed, not judged)",
+        "context states/flags not reachable through rfc1055_context_init + rfc1055_decode (classic mode in "
+        "SEARCH_FOR_START, flag bits other than RFC1055_WITH_SOF, state values outside the enum)",
+    ],
+    "stubs": [
+        "scripted octet source (array + position, then a fixed error for ever)",
+        "scripted sink, octet or all-or-nothing chunk driver (array + count, fails once `cap` octets are in)",
+        "memcpy/memset byte loops (only reached through byte-buffer.c in the roundtrip_buf instances)",
+    ],
+    "assumptions": [
+        "injected error values are negative ints other than -EINTR/-EAGAIN (the endpoint contract defines these "
+        "two as retry signals) and, for the encoder's payload source, other than -ENODATA (end of data)",
+        "the source delivers the stream without transient errors (each decode call runs until END, an invalid "
+        "sequence or the end of the stream)",
+        "decoder state values restricted to those reachable in the respective mode",
+    ],
 }
+
 
 # loops of the endpoint layer: sink_put_chunk runs once per escape pair,
 # sink_adapt twice (two octets), the chunk stub copies <= 2 octets
@@ -29,7 +79,9 @@ def codec(name, np_, nf, kind, sof):
         d["OCTET_SINK"] = None
     uw = dict(EP)
     uw.update({"harness": big, "ref_frame": np_ + 2,
-               "rfc1055_encode": np_ + 2, "rfc1055_decode": wc + 1})
+               # encode: n octets + the failing get; decode of a well-formed
+               # frame: [start END] + n units + END, one loop iteration each
+               "rfc1055_encode": np_ + 2, "rfc1055_decode": np_ + 3})
     return mk(name, "C12/c12_codec.c", REAL if kind == "real" else SCRIPTED, d,
               unwind=uw, default_unwind=3, fp_removal=True,
               replay_units=REAL if kind == "real" else RU)
@@ -59,7 +111,7 @@ def errors(name, np_, kind):
         d["OCTET_SINK"] = None
     uw = dict(EP)
     uw.update({"harness": wc + 2, "ref_frame": np_ + 2, "rfc1055_encode": np_ + 2,
-               "rfc1055_decode": wc + 1})
+               "rfc1055_decode": np_ + 3})
     return mk(name, "C12/c12_errors.c", SCRIPTED, d, unwind=uw,
               default_unwind=3, fp_removal=True, replay_units=RU)
 
@@ -69,10 +121,13 @@ def instances(tier):
     out = []
     for sof in (0, 1):
         m = "sof" if sof else "classic"
-        out.append(codec("c12_roundtrip_buf_%s" % m, 3 if q else 5, 1, "real", sof))
-        out.append(codec("c12_roundtrip_%s" % m, 4 if q else 8, 1, "chunk", sof))
-        out.append(codec("c12_concat_%s" % m, 2 if q else 3, 2, "octet", sof))
-        out.append(step("c12_step_%s" % m, 4 if q else 6, sof))
-        out.append(resync("c12_resync_%s" % m, 2 if q else 5, 2 if q else 3, 1 if q else 2, sof))
-    out.append(errors("c12_errors", 3 if q else 6, "octet"))
+        out.append(codec("c12_roundtrip_buf_%s" % m, 4 if q else 8, 1, "real", sof))
+        out.append(codec("c12_roundtrip_%s" % m, 4 if q else 9, 1, "chunk", sof))
+        out.append(codec("c12_concat_%s" % m, 2 if q else 4, 2, "octet", sof))
+        out.append(step("c12_step_%s" % m, 5 if q else 9, sof))
+        out.append(resync("c12_resync_%s" % m, 2 if q else 5, 2 if q else 3, 2, sof))
+        if not q:
+            # long noise, short frames
+            out.append(resync("c12_resync_longnoise_%s" % m, 9, 2, 1, sof))
+    out.append(errors("c12_errors", 3 if q else 8, "octet"))
     return out
